@@ -177,6 +177,9 @@ def cases(draw, max_rows=6):
             x = draw(st.floats(-1e6, 1e6, allow_nan=False))
         elif k == 5:
             x = draw(boundary(f))
+        elif k == 8:
+            # close to NULL but not NULL: must come back as the number it is
+            x = nullv + draw(st.sampled_from([0.001, -0.001, 0.004, -0.004, 0.009, -0.009, 0.05, -0.05, 1e-5, -1e-5, 0.09]))
         elif k == 6 and full:
             x = draw(st.floats(allow_nan=False, allow_infinity=False))
         elif k == 7 and full:
